@@ -79,7 +79,7 @@ func sweepContracts(propID string) func(p *Program) []*Contract {
 			if fn.Name() == "init" {
 				continue
 			}
-			if c := p.contracts[name]; c != nil {
+			if c := p.contracts[name]; c != nil && (contractServes(c, propID) || c.Assumed) {
 				continue // explicit contract (served through its props line)
 			}
 			if !p.hasCrashSite(fn) {
@@ -91,6 +91,24 @@ func sweepContracts(propID string) func(p *Program) []*Contract {
 		var out []*Contract
 		for _, name := range names {
 			fn := p.fns[name]
+			if c := p.contracts[name]; c != nil {
+				// a contract written for another property: its crash sites still belong to this one.
+				// Same preconditions, invariants and rejection policy; its postconditions are not
+				// claimed here.
+				d := *c
+				d.Props = []string{propID}
+				d.File = c.File + " (crash sites only)"
+				d.Clauses = nil
+				for _, cl := range c.Clauses {
+					switch cl.Kind {
+					case "ensures", "ensures_local", "ghost_ensures", "crash_invariant":
+					default:
+						d.Clauses = append(d.Clauses, cl)
+					}
+				}
+				out = append(out, &d)
+				continue
+			}
 			short := strings.ReplaceAll(name, p.pkgPathOf(fn)+".", "")
 			c := &Contract{FuncName: short, Full: name, Pkg: p.pkgPathOf(fn), Props: []string{propID}, File: "(default contract: may_reject)",
 				Clauses: []*Clause{{Kind: "may_reject"}, {Kind: "noframe"}, {Kind: "use", Text: "ast"}}}
